@@ -57,7 +57,11 @@ def run(ctx):
         ctx.ob('WHO-WRITES', 'store-writer:%s:%s' % w, w in allowed, w[0], '%s calls HashMap::%s on DataStore.data (%s)' % (w[0], w[1], 'allowed' if w in allowed else 'NOT an allowed writer'))
     ctx.floor('WHO-WRITES', 2)
     nput = 0
-    for b in prog.bodies.containing(json.dumps(DS + '::put')):
+    for b0 in prog.bodies.containing(json.dumps(DS + '::put')):
+        if not any(cs.callee == DS + '::put' for cs in b0.calls()):
+            continue
+        # the routine with its private helpers spliced in: a `check_value_size(&v)?` helper gates the put through its success edges
+        b = prog.inl(b0.id, keep=re.escape(DS + '::put') + '$') if (not b0.parent or b0.is_coroutine) else b0
         for cs in b.calls():
             if cs.callee != DS + '::put':
                 continue
@@ -208,23 +212,27 @@ def run(ctx):
         # roles, not names: the queue is what is popped in the loop, the batch what the requests are mapped over, the queried
         # set what mark_self_queried is given
         hq, nsq = loop
+
+        def key_of(op):
+            k_ = L.operand_key(gb, op)
+            return {k_} if k_ is not None else set()
         queue = set()
         for c in gb.calls(r'VecDeque::<.*>::(pop_front|pop_back)$'):
-            if c.bb in nsq and c.args and 'p' in c.args[0]:
-                queue |= L.alias_of(gb, [c.args[0]['p'][0]])
+            if c.bb in nsq and c.args:
+                queue |= key_of(c.args[0])
         batch = set()
         for cs in gb.calls(r'Iterator::map$|Iterator>::map$'):
             clos = [x for x in gb.expr(cs.args[1]).walk() if x.k == 'agg' and x.d == 'closure']
             if clos and clos[0].a in prog.bodies and any(any(c.callee.endswith('::send_dht_request') for c in prog.bodies[i].calls()) for i in prog.family(clos[0].a)):
-                for l in L.expr_locals(gb.expr(cs.args[0])):
-                    if re.search(r'Vec<.*DHTNode', gb.local_ty(l)):
-                        batch |= L.alias_of(gb, [l])
+                for (l, f_) in L.expr_keys(gb, gb.expr(cs.args[0])):
+                    if f_ is None and any(re.search(r'Vec<.*DHTNode', gb.local_ty(x)) for x in L.alias_classes(gb).get(l, {l})):
+                        batch.add((l, f_))
         queried = set()
         for c in gb.calls():
-            if c.callee == MGR + '::mark_self_queried' and len(c.args) > 1 and 'p' in c.args[1]:
-                queried |= L.alias_of(gb, [c.args[1]['p'][0]])
+            if c.callee == MGR + '::mark_self_queried' and len(c.args) > 1:
+                queried |= key_of(c.args[1])
         # what the stagnation snapshot is computed from: the queue (ids of the remaining candidates)
-        kinds = L.classify_exits(gb, loop, nf_blocks, (), queue_locals=queue, batch_locals=batch, result_locals=queue | queried)
+        kinds = L.classify_exits(gb, loop, nf_blocks, (), queue_locals=queue, batch_locals=batch, result_locals=queue | queried, keyed=True)
         for i, (k, c, ln) in enumerate(kinds):
             ok = k in ('queue-empty', 'batch-empty', 'budget', 'stagnation')
             note = {'stagnation': ' (infeasible: an id once popped is marked queried and can never be queued again; allow-listed)'}.get(k, '')
@@ -237,7 +245,7 @@ def run(ctx):
             if r['k'] == 'agg' and r.get('var') == 'GetNotFound':
                 op = r['ops'][r['fields'].index('peers_queried')]
                 e = gb.expr(op)
-                okq = e.mentions_call(r'HashSet::<.*>::len$') is not None and L.touches(gb, e, queried)
+                okq = e.mentions_call(r'HashSet::<.*>::len$') is not None and L.touches_keys(gb, e, queried)
                 ctx.ob('GET-EXIT', 'get:not-found-reports-queried', okq, gb.where(s.get('ln')), 'GetNotFound.peers_queried = queried_nodes.len(): %s' % okq)
         # value provenance: GetSuccess inside the loop carries the reply's value and the request key
         okval = False
